@@ -153,7 +153,10 @@ def registry(Ef, om):
     """-> list of (name, constructor thunk)"""
     from wannierberri.calculators import static, tabulate, dynamic, sdct
     out = []
-    variants = [("", None), ("|int", {"external_terms": False}), ("|ext", {"internal_terms": False})]
+    # formula options that switch to other real-space matrices (CCab_antisym: H-term from CC instead of CCab;
+    # OO_uIu: curvature-like term from OO/FF instead of rot AA) reach formulas that are skipped otherwise
+    variants = [("", None), ("|int", {"external_terms": False}), ("|ext", {"internal_terms": False}),
+                ("|CCab_antisym", {"CCab_antisym": True}), ("|OO_uIu", {"OO_uIu": True})]
     for n, c in classes(static, static.StaticCalculator):
         for tag, kf in variants:
             kw = dict(Efermi=Ef, use_factor=False)
